@@ -426,7 +426,35 @@ def main():
                 known_hits.setdefault(hit[0], (hit[1], v))
             else:
                 violations.append((v["kind"], v["detail"], v["ops"], s))
-        for (ln, op, impl, model) in res["diffs"]:
+        diffs = res["diffs"]
+        nrare = cfg.get("confirm_rare_diffs", 0)
+        if nrare and 0 < len(diffs) <= nrare and not args.replay:
+            # streams that run real goroutines (hash workers) next to the calls: a divergence that
+            # occurs at most `nrare` times in a whole stream may be a schedule the harness did not
+            # pin down rather than a difference between model and code.  Confirm it: replay the
+            # case three times; a divergence that never reproduces is recorded as a note, a
+            # divergence that reproduces once is reported as usual.
+            kept = []
+            for (ln, op, impl, model) in diffs:
+                try:
+                    cops = case_of(wd, ln, cfg.get("reset_prefixes"))
+                except Exception:
+                    cops = None
+                again = cops is None
+                if cops is not None:
+                    rf = os.path.join(WORK, f"{pid}-confirm-{s}-{ln}.txt")
+                    open(rf, "w").write("\n".join(cops) + "\n")
+                    for k in range(3):
+                        rr = run_stream(pid, cfg, seed, 0, tier, os.path.join(WORK, f"{pid}-confirm"), replay=rf)
+                        if rr["error"] or rr["diffs"] or (rr["report"] or {}).get("violations"):
+                            again = True
+                            break
+                if again:
+                    kept.append((ln, op, impl, model))
+                else:
+                    notes.append(f"non-reproducible divergence (seed {s} line {ln}, op `{trunc(op, 80)}`): its case replayed 3 times without divergence; recorded, not reported")
+            diffs = kept
+        for (ln, op, impl, model) in diffs:
             broken.append(f"correspondence: seed {s} line {ln}: op `{trunc(op, 200)}` impl `{trunc(impl, 200)}` model `{trunc(model, 200)}`")
             # a diverging case is also a candidate failing input: keep it as replay material
             try:
